@@ -117,6 +117,7 @@ def check(ctx):
     ctx.rule("R2", "every BoolOp the grammar builds from and/or/&&/|| passes through _mark_boolop_subproc_values, which tags each direct subprocess operand with in_boolop=True", floor=5)
     ctx.rule("R3", "wrapper coverage: raising helpers = all helpers minus !(); value statements covered; only the outermost chain is wrapped (flag restored in finally); the wrapper pass runs on every transformed parse", floor=6)
     ctx.rule("R4", "token -> helper -> capture kind agree across grammar, built_ins and specs; in_boolop is forwarded; non-pipeline helpers check the last pipeline after running", floor=14)
+    ctx.rule("R6", "every pipeline that is ended for the first time reaches the per-command raise decision (_raise_subproc_error) on every normal path - also one whose command could not be started", floor=1)
     ctx.rule("R5", "XSH.exit is honoured before and after a pipeline; an exception escaping a script / -c run yields a non-zero exit status; truthiness is returncode == 0 of the last stage", floor=5)
 
     # ------------------------------------------------------------------ R1
@@ -446,6 +447,20 @@ def check(ctx):
     ctx.ob("R5", f"{MN}:main_xonsh", "main_xonsh returns the computed exit code", ok, key="main|returns-exit-code")
     del src
 
+    # ---- R6: no normal way out of CommandPipeline.end() around the raise decision, except "already ended"
+    plm = ctx.repo.module(PL)
+    endf = flat(ctx, plm.func("CommandPipeline.end"), 2, skip=("_raise_subproc_error", "tee_stdout", "_close_proc", "_close_prev_procs", "_return_terminal", "_check_signal", "_apply_to_history", "_apply_to_thread_local", "_endtime", "_set_input"))
+    ecfg = CFG(endf)
+    dec = [n for n in ecfg.nodes if n.kind == "stmt" and any((call_name(c) or "").endswith("_raise_subproc_error") for c in calls_in(n.ast)) and not getattr(n.ast, "_xv_bind", False)]
+    if not dec:
+        raise AnchorMissing(f"{PL}:CommandPipeline.end: no call of _raise_subproc_error on the way out (directly or through _end)")
+    # the one legitimate shortcut: the pipeline was ended before (the decision was taken then)
+    ended_attr = {unparse(t) for n in walk_local(endf) if isinstance(n, ast.Assign) and const_value(n.value, None) is True for t in n.targets if isinstance(t, ast.Attribute) and unparse(t.value) == "self"}
+    if not ended_attr:
+        raise AnchorMissing(f"{PL}:CommandPipeline.end: the ended flag")
+    ok, path = ecfg.must_pass([ecfg.entry], lambda m_: m_ in dec, exits=("exit",), skip_edge=ecfg.assume_edges([(a_, False) for a_ in ended_attr]))
+    ctx.ob("R6", f"{PL}:CommandPipeline.end", f"every normal path of a first end() (not `{'/'.join(sorted(ended_attr))}`) passes _raise_subproc_error()", ok, key="end|raise-decision-skipped", where=loc(endf), path=ecfg.fmt_path(path) if path else None)
+
 
 META = {
     "technique": "static analysis: decision-table extraction (path enumeration + forward substitution, atoms classified into a small abstract domain) compared with a documented oracle; CFG must-pass-through for parser-side marking; table folding across grammar, built_ins and specs",
@@ -461,4 +476,5 @@ META = {
     "Python's own and/or evaluation and real exit codes are trusted.",
     "note": "Decides the listed structural clauses, not the behaviour. Oracle rows are written from the property "
     "statement and docs/error_handling.rst ('regardless of chain context').",
+    "more": 'Also decided: every first CommandPipeline.end() reaches the per-command raise decision on every normal path, also for a command that could not be started.',
 }
